@@ -8,7 +8,7 @@ ENTRIES = {
              "back unchanged on any rows they cover (superset stability); every id is strictly below the experiment-space size. The "
              "sentinel constant is re-read from /repo on every run. Tied to the code by running the extracted constructor model and the real "
              "Screen(...) / ExperimentSpace on generated screens (arity 1-3, ''/non-ASCII/control names in any column, negative/-0.0/0/subnormal/"
-             "repeated doses, own-superset and corrupted supplied mappings), comparing ids, all three mappings in stored order and sizes exactly.",
+             "repeated doses, own-superset and corrupted supplied mappings), comparing ids, all three mappings in stored order and sizes exactly. In addition numpy_array_is_0_indexed_integers, both encoders (the pandas pipeline statement by statement, each pandas call a declared primitive on a list-of-rows DataFrame), the id-encoding statements of Screen.__init__ and ExperimentSpace.n_unique_* are re-translated from /repo's source on every run and C01_model_is_source_* prove the model equal to the translations.",
         note="Trusted: Coq kernel, extraction, OCaml driver, harness. pandas drop_duplicates/sort_values/merge and numpy unique are modelled by "
              "their documented effect; doses cross as order keys identifying -0.0 and 0.0; supplied mappings are assumed key-unique (batchie's own are); "
              "NaN doses and names containing NUL are outside the generator."),
@@ -91,7 +91,7 @@ ENTRIES = {
              "model trains on exactly the observed rows without a control id and builds its single-effect table from observed rows only. The "
              "pre-repair logic is kept as model switches and refuted with three vm_compute witnesses. Tied to the code by relational cases "
              "through the real Screen, both models, seeded sampler, all distance / score chunks, select_next_plate and train_model.main, two runs "
-             "compared bit for bit and with the extracted model.",
+             "compared bit for bit and with the extracted model. In addition BayesianModel.add_observations, SparseDrugCombo._add_observations, the legacy _update (with the invariant that its index dictionaries are the positions of each id after any number of calls), SparseDrugComboInteraction._add_observations and create_single_treatment_effect_map are re-translated from /repo's source on every run and C04_model_is_source_* prove the model equal to the translations; the translation determines the interaction model's repair switches.",
         note="Trusted: Coq kernel, extraction, driver, harness; the float32 cast is data; downstream numerics are compared implementation-side "
              "only with a `.observations` read tripwire; fast_mvn's unseeded generator is replaced by a seeded one (C18's subject). The three "
              "interaction-model defects found here were repaired in /repo (fix: 49949ee); the harness probes which switch setting the code implements."),
@@ -142,7 +142,7 @@ ENTRIES = {
              "answers, answers checked against the numpy contract). Defects are detected by the runtime part: every randomised operation and the "
              "four --seed CLIs are run twice with identically seeded generators under differently seeded global generators; outputs, request "
              "traces and global generator states are compared, and every numpy.random.<function> / argument-less default_rng() is trapped with its "
-             "batchie call site.",
+             "batchie call site. For eight functions (RandomScorer.score, the two hold-outs, FixedSize / OptimalSize smoothers, PlatePermutation / SampleSegregating generators, the DBAL sub-sampling run) the tie is a theorem: the source is re-translated on every run into a program of the model's own resumption type, where a request can only come from a call on the function's own generator argument (anything else is refused), and proved equal to the hand-written program.",
         note="Absence of hidden state in the implementation is checked at run time on generated inputs, not proved (a pure model cannot exhibit "
              "hidden state). Trusted: Coq kernel, extraction, driver, mock patching + stack attribution, RecordingGenerator (self-tested same "
              "stream). Randomness bypassing numpy.random / python random is visible only through differing outputs. Known findings on the current "
@@ -206,7 +206,7 @@ ENTRIES = {
              "or relaunched; no index skipped; inputs from the predecessor), under 'marker published last' and the repaired examine (or batch size "
              "1); both hypotheses shown necessary by vm_compute witnesses. The real script is driven in-process against a fake nextflow over all "
              "single and (thorough) exhaustive/sampled pairs of crash points, launch log and final tree compared with the model and with the "
-             "crash-free run. The invocation level (what run_next_* returns, the while loop of main(), the operator handing over a new screen per completed prospective batch) is modelled: an invocation never crosses a batch boundary, every launched step reads the operator screen of its iteration, invocations stop exactly at the batch boundary / when no plate remains; main() is driven per invocation with a distinct --screen per operator screen.",
+             "crash-free run. The invocation level (what run_next_* returns, the while loop of main(), the operator handing over a new screen per completed prospective batch) is modelled: an invocation never crosses a batch boundary, every launched step reads the operator screen of its iteration, invocations stop exactly at the batch boundary / when no plate remains; main() is driven per invocation with a distinct --screen per operator screen. examine_output_dir_to_determine_current_iteration, run_next_retrospective_step / run_next_prospective_step and the five directory helpers are re-translated from the script's source on every run and C19_model_is_source_* prove the model's examine (with the repair) / plan_of / call_returns equal to the translations.",
         note="No nextflow engine exists in the sandbox: workflows are represented by harness/fake_nextflow (publishes the files the script globs "
              "for, in a commanded order, crashing on command); nextflow's own resume cache and asynchronous publishDir are outside the model. The "
              "empty-iteration-directory defect found here was repaired in /repo (fix: 77b0dc7; witness in corpus/C19). KNOWN FINDING "
